@@ -1,17 +1,18 @@
 #!/usr/bin/env python3
-"""Writes MANIFEST.json from tools/manifest_table.json (one row per property) and validates it."""
+"""Regenerates MANIFEST.json (from tools/manifest.d/*.json) and known_findings.json
+(from known_findings.d/*.json); validates the manifest against the schema when jsonschema is importable."""
 import json
 import sys
 from pathlib import Path
 
 ROOT = Path(__file__).resolve().parent.parent
-table = json.loads((ROOT / "tools" / "manifest_table.json").read_text())
 props = [json.loads(l)["id"] for l in (ROOT / "properties.jsonl").read_text().splitlines() if l.strip()]
 checks, na = [], []
 for pid in props:
-    row = table["properties"].get(pid)
+    f = ROOT / "tools" / "manifest.d" / f"{pid}.json"
+    row = json.loads(f.read_text()) if f.exists() else None
     if not row or not row.get("claimed"):
-        na.append({"property_id": pid, "reason": (row or {}).get("reason", "check not built yet in this round; see DESIGN.md §6")})
+        na.append({"property_id": pid, "reason": (row or {}).get("reason", "check not built yet; planned in DESIGN.md §6")})
         continue
     checks.append({
         "property_id": pid,
@@ -20,7 +21,7 @@ for pid in props:
         "evidence_file": f"evidence/{pid}.json",
         "replay_cmd_template": f"python3 run.py --prop {pid} --replay {{path}}",
         "engine": "lean4-proof+correspondence",
-        "level_claimed": {"category": "proof", "text": row["text"], "design_ref": f"DESIGN.md §6/{pid}"},
+        "level_claimed": {"category": "proof", "text": row["text"], "design_ref": f"DESIGN.md §6/{pid} and design.d/{pid}.md"},
         "level_note": row["note"],
         "technique": row["technique"],
     })
@@ -29,7 +30,7 @@ man = {
     "setup_cmd": "python3 tools/setup.py",
     "hooks": {
         "guard": "MXLPY_VERIF",
-        "enable": "no hooks are compiled into /repo; checks import /repo/src through /venv's editable install",
+        "enable": "no hooks are compiled into /repo; checks import /repo/src through /venv's editable install (or $MXLPY_REPO/src)",
         "baseline_off_cmd": "cd /repo && /venv/bin/python -m pytest -ra -q -p no:cacheprovider --timeout=900 --continue-on-collection-errors",
         "source_commits": [],
         "add_only": True,
@@ -41,13 +42,21 @@ man = {
         "kind_free_text": "Lean 4 theorems over executable models (lean/MxlVerif/MxlVerif/{Model,Props}); models tied to /repo by translators (translate/) and a differential correspondence harness (harness/, vlib/) through a compiled Lean driver (line protocol)",
     }],
     "checks": checks,
-    "notes": table.get("notes", ""),
+    "notes": (ROOT / "tools" / "manifest_notes.txt").read_text().strip(),
     "not_applicable": na,
 }
 (ROOT / "MANIFEST.json").write_text(json.dumps(man, indent=1) + "\n")
+findings = []
+for f in sorted((ROOT / "known_findings.d").glob("*.json")):
+    findings += json.loads(f.read_text())
+(ROOT / "known_findings.json").write_text(json.dumps({
+    "comment": "Genuine defects of the pinned MxlPy tree that the checks reproduce (merged from known_findings.d/). status=known: printed as KNOWN-FINDING, exit 0. status=fixed: 'fixed: property=<id> <commit> <what failed>'; suppresses nothing. Never written at run time.",
+    "findings": findings,
+    "fixed_lines": [f"fixed: property={e['property']} {e.get('commit','?')} {e['what']}" for e in findings if e.get("status") == "fixed"],
+}, indent=1) + "\n")
 try:
     import jsonschema
     jsonschema.validate(man, json.loads(Path("/root/.vp/MANIFEST.schema.json").read_text()))
-    print("MANIFEST.json valid;", len(checks), "checks,", len(na), "not_applicable")
+    print("MANIFEST.json valid;", len(checks), "checks,", len(na), "not_applicable;", len(findings), "findings")
 except ImportError:
     print("jsonschema unavailable; wrote MANIFEST.json unvalidated")
